@@ -2,42 +2,16 @@
 C12 — the look-ahead rule of the generator loop.
 -/
 import DebInspector.Props.C12
+import DebInspector.Proofs.Deb822
 
 namespace Props.C12
 open Py Model.Deb822
 
-theorem mem_dropBlanksTabs {c : Char} {l : Str} (h : c ∈ dropBlanksTabs l) : c ∈ l := by
-  induction l with
-  | nil => simp [dropBlanksTabs] at h
-  | cons d ds ih =>
-    simp only [dropBlanksTabs] at h
-    split at h
-    · exact List.mem_cons_of_mem _ (ih h)
-    · exact h
-
 /-- a continuation line is not a declaration line -/
-theorem cont_not_decl (l : Str) (h : isCont l = true) : isDecl l = false := by
-  cases l with
-  | nil => simp [isCont, headP] at h
-  | cons c cs =>
-    simp only [isCont, headP, Bool.and_eq_true, Bool.or_eq_true, decide_eq_true_eq] at h
-    have : isLetterIC c = false := by
-      rcases h.1 with e | e <;> subst e <;> decide
-    simp [isDecl, headP, this]
+theorem cont_not_decl (l : Str) (h : isCont l = true) : isDecl l = false := Proofs.Deb822.cont_not_decl l h
 
 /-- a continuation line is not blank -/
-theorem cont_not_blank (l : Str) (h : isCont l = true) : isBlank l = false := by
-  simp only [isCont, Bool.and_eq_true] at h
-  obtain ⟨c, r, hr, hc⟩ : ∃ c r, dropBlanksTabs l = c :: r ∧ isSpace c = false := by
-    cases hd : dropBlanksTabs l with
-    | nil => rw [hd] at h; simp [headP] at h
-    | cons c r => rw [hd] at h; exact ⟨c, r, rfl, by simpa [headP] using h.2⟩
-  have hm : c ∈ l := mem_dropBlanksTabs (by rw [hr]; simp)
-  cases hb : isBlank l with
-  | false => rfl
-  | true =>
-    have := List.all_eq_true.mp hb c hm
-    rw [hc] at this; cases this
+theorem cont_not_blank (l : Str) (h : isCont l = true) : isBlank l = false := Proofs.Deb822.cont_not_blank l h
 
 /-- **the look-ahead rule**: a blank line met while a field is open is appended to that field exactly
 when a next line exists and is neither a declaration nor blank; otherwise the paragraph ends -/
